@@ -101,6 +101,19 @@ def gen(ctx):
                 del exp[rid]
                 cancelled.add(rid)
         items.append((L.Sched(conf=ART_CONF, labels=labels + L.flush(rid), note="mixed typed lists"), {"expect": exp, "frames": frames}))
+    # a malformed line in the middle of the reply to a list: that list fails; a list issued right afterwards gets an error or ITS OWN
+    # values — never what was left of the broken reply
+    for bad in (b"\xff\n", b"what\n", b"\n", b": x\n"):
+        for k in (1, 15, 16, 17, 31, 40):
+            specs1, want1, lines1 = any_specs(rng, 4, 1)
+            specs1 = [x for x in specs1 if not x.startswith("a")] or ["u" + hexs("100")]
+            specs1 = (specs1 + ["u" + hexs("101"), "r" + hexs("102"), "u" + hexs("103")])[:4]
+            lines1 = [(b"update " if x[0] == "u" else b"rescan " if x[0] == "r" else b"stop") + (bytes.fromhex(x[1:]) if len(x) > 1 else b"") for x in specs1]
+            lines1 = [l.rstrip() for l in lines1]
+            specs2 = ["u" + hexs("900"), "r" + hexs("901")]
+            labels = ["D0", "v1:" + ",".join(specs1), "S*", "D3", "S*", f"D{k}", "G:" + hexs(bad), "D0", "v2:" + ",".join(specs2), "S*", "D0", "t50", "S*", "D0", "t200", "t200"]
+            items.append((L.Sched(conf=ART_CONF, labels=labels, note=f"malformed line {bad!r} {k} bytes into a list's reply, then another list"),
+                          {"expect": {}, "own_or_error": {2: "ok[900,901]"}, "frames": None}))
     # the empty list writes nothing and resolves to the empty result whatever the state of the connection (a server that hung up,
     # malformed data, failing reads, an exited loop)
     for fault in (["e"], ["S*", "e"], ["G:" + hexs(b"what\n")], ["r"], ["w", "t100"], ["N:" + hexs("player"), "D7", "e"]):
@@ -239,23 +252,27 @@ def run(ctx, only=None):
             continue
         res = t.results()
         v = []
+        for rid, own in info.get("own_or_error", {}).items():
+            got = res.get(rid, (None, "<never resolved>"))[1]
+            if got != own and not got.startswith("proto:") and got != "closed":
+                v.append(f"typed list {rid} was handed {got[:200]}: neither its own values ({own}) nor an error — values of another reply were paired with it")
         for rid, exp in info["expect"].items():
             got = res.get(rid, (None, "<never resolved>"))[1]
             if got != exp:
                 v.append(f"typed list {rid} decoded to {got[:200]}; the i-th value must come from the reply to the i-th command: {exp[:200]}")
         want = []
-        for lines in info["frames"]:
+        for lines in (info["frames"] or []):
             n = len(lines)
             sizes[n] = sizes.get(n, 0) + 1
             if n >= 2:
                 nontrivial += 1
             want += lines if n == 1 else [] if n == 0 else [b"command_list_ok_begin"] + lines + [b"command_list_end"]
         seen = [l for _, l in t.written_lines() if l not in (b"idle", b"noidle")]
-        if seen != want:
+        if info["frames"] is not None and seen != want:
             k = next((i for i, (a, c) in enumerate(zip(seen + [None], want + [None])) if a != c), 0)
             v.append(f"request lines on the wire differ from one-batch framing at line {k}: wrote {seen[k:k+4]}, framing demands {want[k:k+4]}")
         for m in v[:3]:
-            fails.append(Failure(s.model_case(), m, extra={"impl_case": r["impl_case"], "info": {"expect": {str(k): x for k, x in info["expect"].items()}, "frames": [[l.decode() for l in ls] for ls in info["frames"]]}}))
+            fails.append(Failure(s.model_case(), m, extra={"impl_case": r["impl_case"], "info": {"expect": {str(k): x for k, x in info["expect"].items()}, "frames": [[l.decode() for l in ls] for ls in (info["frames"] or [])], "own_or_error": {str(k): x for k, x in info.get("own_or_error", {}).items()}}}))
     if only is not None:
         for r in results:
             print("labels:", " ".join(r["sched"].labels)[:1500], "\nimpl  :", r["impl_raw"][:2500], "\nmodel :", " ".join(r["model_segs"])[:2500])
@@ -302,6 +319,7 @@ def replay(ctx, payload):
         toks = c.split(" ")
         info = None
         if inf:
-            info = {"expect": {int(k): x for k, x in inf["expect"].items()}, "frames": [[l.encode() for l in ls] for ls in inf["frames"]]}
+            info = {"expect": {int(k): x for k, x in inf["expect"].items()}, "frames": [[l.encode() for l in ls] for ls in inf["frames"]] if not inf.get("own_or_error") else None,
+                    "own_or_error": {int(k): x for k, x in inf.get("own_or_error", {}).items()}}
         items.append((L.Sched(cspec=toks[1], conf=toks[2], labels=toks[3:]), info))
     return run(ctx, only=items)
